@@ -167,9 +167,51 @@ class Elab:
         ]
         return "area_to_feature n g %s {%s}" % ("true" if self.spherical else "false", "; ".join(fields))
 
+    def const_surf(self, v):
+        return "{ds_const=true; ds_min=%s; ds_max=%s; ds_tris=[]; ds_nodes=[]}" % (ml(v), ml(v))
+
+    def plume_feature(self, f, idx):
+        tag = f.get("tag", "") or "plume"
+        ti = self.tag_index(tag)
+        key = "features/%d" % idx
+        n = len(f["coordinates"])
+        rot = [PI / 2. - a * PI / 180. for a in f.get("rotation angles", [])]
+        axes = [float(a) for a in f.get("semi-major axis", [])]
+        if self.spherical:
+            axes = [a * (PI / 180.) for a in axes]
+        temps = []
+        for m in f.get("temperature models", []):
+            o = self.op(m)
+            if m["model"] == "uniform":
+                temps.append("PTUniform (%s, %s, %s, %s)" % (ml(m.get("min depth", 0.0)), ml(m.get("max depth", DMAX)), o, ml(m.get("temperature", 293.15))))
+            elif m["model"] == "gaussian":
+                temps.append("PTGaussian (%s, %s, %s, %s)" % (o, mlist([ml(x) for x in m.get("depths", [])]),
+                                                            mlist([ml(x) for x in m["centerline temperatures"]]),
+                                                            mlist([ml(x) for x in m.get("gaussian sigmas", [])])))
+            else:
+                self.unsupported = "plume temperature model " + m["model"]
+        fields = [
+            "pl_coords=" + mlist([mpt(c) for c in self.coords(f["coordinates"])]),
+            "pl_min=" + ml(f.get("min depth", 0.0)), "pl_max=" + ml(f.get("max depth", DMAX)),
+            "pl_depths=" + mlist([ml(x) for x in f.get("cross section depths", [])]),
+            "pl_axes=" + mlist([ml(x) for x in axes]),
+            "pl_ecc=" + mlist([ml(x) for x in f.get("eccentricity", [])]),
+            "pl_rot=" + mlist([ml(x) for x in rot]),
+            "pl_temp=" + mlist(temps),
+            "pl_comp=" + mlist([self.comp_model(m, key + "/composition models/%d" % i) for i, m in enumerate(f.get("composition models", []))]),
+            "pl_grains=" + mlist([self.grains_model(m, key + "/grains models/%d" % i) for i, m in enumerate(f.get("grains models", []))]),
+            "pl_vel=" + mlist([self.vel_model(m, key + "/velocity models/%d" % i) for i, m in enumerate(f.get("velocity models", []))]),
+            "pl_tag=" + ml(float(ti)),
+        ]
+        return "plume_to_feature n g %s {%s}" % ("true" if self.spherical else "false", "; ".join(fields))
+
     def feature(self, f, idx):
         if f["model"] in ("continental plate", "oceanic plate", "mantle layer"):
             return self.area_feature(f, idx)
+        if f["model"] == "plume":
+            return self.plume_feature(f, idx)
+        # keep the tag table aligned even for features the model does not cover
+        self.tag_index(f.get("tag", "") or f["model"])
         self.unsupported = "feature " + f["model"]
         return None
 
@@ -359,6 +401,62 @@ class Gen:
             f["velocity models"] = [self.vel_model(dmin, dmax) for _ in range(r.choice([1, 1, 2]))]
         if r.random() < 0.6:
             f["grains models"] = [self.grains_model(dmin, dmax) for _ in range(r.choice([1, 1, 2]))]
+        return f
+
+    def plume(self, name, spherical=False, centre=None):
+        r = self.r
+        n = r.randint(1, 5)
+        if spherical:
+            cx, cy = centre or (self.num(-150, 150, 1), self.num(-60, 60, 1))
+            step, amin, amax = 0.5, 0.3, 4.0
+        else:
+            cx, cy = centre or (self.num(-5e5, 5e5, 0), self.num(-5e5, 5e5, 0))
+            step, amin, amax = 3e4, 2e4, 2e5
+        dmin = r.choice([0.0, self.num(0, 5e4, 0)])
+        d0 = dmin + self.num(1e4, 8e4, 0)
+        depths = [d0]
+        for _ in range(n - 1):
+            depths.append(depths[-1] + self.num(2e4, 1.5e5, 0))
+        coords = []
+        x, y = cx, cy
+        for _ in range(n):
+            coords.append([round(x, 3), round(y, 3)])
+            x += r.uniform(-step, step)
+            y += r.uniform(-step, step)
+        f = {"model": "plume", "name": name, "coordinates": coords, "cross section depths": depths,
+             "semi-major axis": [self.num(amin, amax, 3) for _ in range(n)],
+             "eccentricity": [r.choice([0.0, self.num(0, 0.9, 3)]) for _ in range(n)],
+             "rotation angles": [r.choice([0, 350, 10, 180, self.num(0, 360, 1)]) for _ in range(n)]}
+        if dmin > 0 or r.random() < 0.5:
+            f["min depth"] = dmin
+        dmax = depths[-1] + r.choice([0.0, self.num(1e4, 2e5, 0)])
+        if r.random() < 0.8:
+            f["max depth"] = dmax
+        if r.random() < 0.2:
+            f["tag"] = r.choice(["alpha", "hot", "plume"])
+        temps = []
+        for _ in range(r.choice([0, 1, 1, 2])):
+            if r.random() < 0.6:
+                k = r.randint(1, 4)
+                ds = sorted(set(self.num(dmin, dmax, 0) for _ in range(k)))
+                m = {"model": "gaussian", "depths": ds,
+                     "centerline temperatures": [r.choice([self.num(100, 2000, 1), -1]) for _ in ds],
+                     "gaussian sigmas": [self.num(0.1, 0.8, 3) for _ in ds]}
+            else:
+                m = {"model": "uniform", "temperature": self.num(200, 2000, 1)}
+                if r.random() < 0.5:
+                    m["min depth"] = self.num(dmin, dmin + 5e4, 0)
+                if r.random() < 0.5:
+                    m["max depth"] = self.num(dmax - 5e4, dmax + 2e4, 0)
+            if r.random() < 0.6:
+                m["operation"] = self.op()
+            temps.append(m)
+        f["temperature models"] = temps
+        f["composition models"] = [self.comp_model(dmin, dmax) for _ in range(r.choice([0, 1, 1, 2]))]
+        if r.random() < 0.5:
+            f["velocity models"] = [self.vel_model(dmin, dmax) for _ in range(r.choice([1, 2]))]
+        if r.random() < 0.5:
+            f["grains models"] = [self.grains_model(dmin, dmax) for _ in range(r.choice([1, 2]))]
         return f
 
     def globals(self, w):
